@@ -36,6 +36,9 @@
 #include <thread>
 #include <vector>
 
+#include <fcntl.h>
+#include <unistd.h>
+
 #include <x86gprintrin.h>
 #undef __rdtsc
 
@@ -167,7 +170,15 @@ struct Case
     double const nspt = std::ldexp(static_cast<double>(num), -static_cast<int>(k));
     RdtscClock::RdtscTicks::instance()._ns_per_tick = nspt;
     set_reads(std::move(r));
+    // the constructor prints "Failed to sync RdtscClock…" to stderr when both tries fail (an expected case here): keep it out of the trace
+    std::fflush(stderr);
+    int const saved = dup(2);
+    int const dn = open("/dev/null", O_WRONLY);
+    if (dn >= 0) { dup2(dn, 2); }
     clk.reset(new RdtscClock{std::chrono::nanoseconds{ns}});
+    std::fflush(stderr);
+    if (saved >= 0) { dup2(saved, 2); close(saved); }
+    if (dn >= 0) { close(dn); }
     bool const synced = clk->_version.load() != 0;
     seen.clear(); seen_ver = clk->_version.load(); have_last = false;
     ++g_stats["cases"];
